@@ -5,6 +5,7 @@
 package c10val
 
 import (
+	"sync/atomic"
 	"encoding/json"
 	"fmt"
 	"reflect"
@@ -434,7 +435,7 @@ func resealBlock(cs consensus.State, b *types.Block) {
 
 // Run is the validation half of C10.
 func Run(c *vf.Ctx) {
-	c.Set("validation_rule", "at every accepted block of a small union-alphabet DFS on every network family: every single structural mutation of the block and of its supplement (reflection walk: every field +-1 / byte flips / list drop, dup, swap, empty; integers and currencies set to 0, 1, 2^63, 2^64-1, 2^128-1, the unassigned-leaf sentinel; proofs resized to 0/63/64/65 hashes; out-of-range indices appended to every index list; pointers and interfaces set to nil; wrong / empty resolution types; policies nil, nested 31/32/33/200 deep, 255/256/1024/1025 wide) is fed - as is and re-sealed (payout, commitment, nonce recomputed) - to ValidateBlock, ValidateOrphan, ValidateHeader, ValidateTransaction, ValidateV2Transaction and ValidateTransactionElements under recover; accepted mutants are applied and reverted")
+	c.Set("validation_rule", "at every accepted block of a small union-alphabet DFS on every network family: every single structural mutation of the block and of its supplement (reflection walk: every field +-1 / byte flips / list drop, dup, swap, empty; integers and currencies set to 0, 1, 2^63, 2^64-1, 2^128-1, the unassigned-leaf sentinel; proofs resized to 0/63/64/65 hashes; out-of-range indices appended to every index list; pointers and interfaces set to nil; wrong / empty resolution types; policies nil, nested 31/32/33/200 deep, 255/256/1024/1025 wide) is fed - as is and re-sealed (payout, commitment, nonce recomputed) - to ValidateBlock, ValidateOrphan, ValidateHeader, ValidateTransaction, ValidateV2Transaction and ValidateTransactionElements under recover; accepted mutants are applied and reverted; for a subset of block shapes (quick: 20 per network, thorough: all) additionally every PAIR of value-setting mutations on different leaves (at most 120 per block, evenly thinned)")
 	nets := []string{"mixed", "v1-eras", "v2-only", "v2-eph5"}
 	for _, n := range nets {
 		if c.Expired() {
@@ -447,6 +448,7 @@ func Run(c *vf.Ctx) {
 			m.SkipStart = 3
 			m.H += 3
 		}
+		var pairShapes atomic.Int64
 		seenShape := map[string]bool{}
 		var mu = make(chan struct{}, 1)
 		m.OnTransition = func(x *chain.Explorer, prev, w *chain.World, path []string) {
@@ -480,6 +482,44 @@ func Run(c *vf.Ctx) {
 				mt.Undo()
 				c.Distinct(n, stable(mt.Path))
 			}
+			// pairs: crashes that need TWO unusual values at once (a sum that overflows only when two addends are extreme,
+			// an index that is out of range only for a shortened list, ...): every pair of value-setting mutations
+			// (integers / currencies to extreme values, proofs resized, index lists extended) on different leaves
+			if pairShapes.Add(1) <= int64(vf.Pick(c, 20, 1<<30)) {
+				var num []chain.Mutation
+				for _, mt := range extremes(&b) {
+					if !notDecodable(mt.Path) && (strings.Contains(mt.Path, "=") || strings.Contains(mt.Path, "[len=") || strings.Contains(mt.Path, "[append ")) && !strings.Contains(mt.Path, "-policy") && !strings.Contains(mt.Path, "nested-") && !strings.Contains(mt.Path, "wide-") && !strings.Contains(mt.Path, "total-") {
+						num = append(num, mt)
+					}
+				}
+				if step := (len(num) + 119) / 120; step > 1 {
+					var thin []chain.Mutation
+					for i := 0; i < len(num); i += step {
+						thin = append(thin, num[i])
+					}
+					num = thin
+					c.Count("pair_mutation_sets_thinned", 1)
+				}
+				leafOf := func(p string) string {
+					if i := strings.LastIndexAny(p, "=["); i > 0 {
+						return p[:i]
+					}
+					return p
+				}
+				for i := range num {
+					for j := i + 1; j < len(num); j++ {
+						if leafOf(num[i].Path) == leafOf(num[j].Path) {
+							continue
+						}
+						num[i].Apply()
+						num[j].Apply()
+						probe(c, x, prev, deepCopyBlock(b), a.BS, "block", num[i].Path+" & "+num[j].Path, path, true)
+						num[j].Undo()
+						num[i].Undo()
+						c.Count("pair_mutations", 1)
+					}
+				}
+			}
 			bs := deepCopySupp(a.BS)
 			for _, mt := range extremes(&bs) {
 				mt.Apply()
@@ -507,6 +547,28 @@ func Replay(c *vf.Ctx, cs Case) {
 	prev.CS = a.PrevCS
 	prev.Times = w.Times[:len(w.Times)-1]
 	x := chain.NewExplorer(c, &chain.Model{Name: "union", Spec: chain.Spec(cs.Network), Menu: menu}, "C10")
+	if parts := strings.Split(cs.Path, " & "); cs.Target == "block" && len(parts) == 2 {
+		b := deepCopyBlock(a.B)
+		var pair []chain.Mutation
+		for _, want := range parts {
+			for _, mt := range extremes(&b) {
+				if mt.Path == want {
+					pair = append(pair, mt)
+					break
+				}
+			}
+		}
+		if len(pair) != 2 {
+			c.HarnessError("pair mutation %q not found on replay", cs.Path)
+			return
+		}
+		pair[0].Apply()
+		pair[1].Apply()
+		probe(c, x, &prev, deepCopyBlock(b), a.BS, "block", cs.Path, cs.Trace, true)
+		pair[1].Undo()
+		pair[0].Undo()
+		return
+	}
 	if cs.Target == "block" {
 		b := deepCopyBlock(a.B)
 		for _, mt := range extremes(&b) {
